@@ -67,6 +67,10 @@ impl<T> SyncSender<T> {
         requires
             forall|f: int, c: u64| #[trigger] crate::sources::ping::eventfd::may_send(f, c) <==> (f == self.wake_fd() && c == 2),
             forall|f: int, b: Seq<u8>| #[trigger] crate::rustix::io::may_write(f, b) <==> (f == self.wake_fd() && b == crate::sources::ping::eventfd::ne_bytes(2)),
+            // C04 ("a blocking synchronous send completes as long as the loop keeps dispatching"): the sender may PARK in the
+            // queue's blocking send only after it has woken the loop -- on a full (or rendezvous) queue nobody else would ever
+            // make room
+            may_block_send(&self.queue()) <==> crate::rustix::io::w_write_called(self.wake_fd(), crate::sources::ping::eventfd::ne_bytes(2)),
         ensures
             r is Ok ==> w_sync_sent(&self.queue()) && crate::rustix::io::w_write_called(self.wake_fd(), crate::sources::ping::eventfd::ne_bytes(2)),
 //@ enditem
